@@ -63,6 +63,14 @@ def configs(tier, seed):
             key = "nan/" + "+".join(f"{a}>{b}:{d}" for (a, b), d in zip(fs, fdims)) + f"/raise={int(raise_error)}"
             out.append(dict(h="nan_balance", op="nan", key=key, procs=["sysenv", "p1", "p2"], flows=[list(p) for p in fs], fdims=fdims, stocks=["p1"],
                             raise_error=raise_error, default_tol=False))
+    # histories on one system object: check, change the values, check again (verdict must follow the current values)
+    for fs in _flowsets(["sysenv", "p1", "p2"], 2)[::5]:
+        fdims = ["ta", "at"][: len(fs)]
+        for first in ("mb_default", "cf", "mb_explicit"):
+            for second in ("mb_default", "cf"):
+                key = "history/" + "+".join(f"{a}>{b}:{d}" for (a, b), d in zip(fs, fdims)) + f"/{first}>{second}"
+                out.append(dict(h="history", op="hist", key=key, procs=["sysenv", "p1", "p2"], flows=[list(p) for p in fs], fdims=fdims, stocks=["p1"],
+                                first=first, second=second))
     # check_flows
     for fs in _flowsets(["sysenv", "p1", "p2"], 2):
         for rot in range(2):
@@ -225,6 +233,46 @@ def _run(cfg, w, h, cap):
         for name, (a, b, d, V) in F.items():
             for idx in np.ndindex(*np.shape(V)):
                 w.ob(f"flow_unchanged[{name}]{list(idx)}", w.same(mfa.flows[name].values[idx], V[idx]))
+        return
+    if h == "history":
+        # step 1 on the original values (outcome irrelevant here), then new values, then the checked call
+        try:
+            if cfg["first"] == "mb_default":
+                mfa.check_mass_balance(raise_error=False)
+            elif cfg["first"] == "mb_explicit":
+                mfa.check_mass_balance(tolerance=1.0, raise_error=False)
+            else:
+                mfa.check_flows()
+        except Exception as e:
+            w.ob("first_check_does_not_raise", False, info=repr(e)[:100])
+            return
+        cap.records.clear()
+        F2 = {}
+        for i, (name, (a, b, d, V)) in enumerate(F.items()):
+            V2 = w.arr(f"g{i}", np.shape(V))
+            mfa.flows[name].set_values(V2.copy())
+            F2[name] = (a, b, d, V2)
+        S2 = {}
+        for j, (name, (sp, d, I, O, ST)) in enumerate(S.items()):
+            I2, O2, ST2 = w.arr(f"t{j}_in", np.shape(I)), w.arr(f"t{j}_out", np.shape(O)), w.arr(f"t{j}_stock", np.shape(ST))
+            mfa.stocks[name].inflow.set_values(I2.copy())
+            mfa.stocks[name].outflow.set_values(O2.copy())
+            mfa.stocks[name].stock.set_values(ST2.copy())
+            S2[name] = (sp, d, I2, O2, ST2)
+        mf = _maxabs(w, [v for (_a, _b, _d, V) in F2.values() for v in V.flat])
+        ms = _maxabs(w, [v for (_sp, _d, _I, _O, ST) in S2.values() for v in ST.flat])
+        tol = 100 * EPS * w.max(mf, ms)
+        if cfg["second"] == "mb_default":
+            B = _balances(cfg, w, F2, S2)
+            mfa.check_mass_balance(raise_error=False)
+            warnings = [m for lv, m in cap.records if lv == logging.WARNING]
+            any_bad = _any(w, [w.gt(w.abs(v), tol) for cells in B.values() if cells for v in cells.values()])
+            w.ob("second_check_uses_current_values", w.iff(len(warnings) >= 1, any_bad))
+        else:
+            mfa.check_flows()
+            warnings = [m for lv, m in cap.records if lv == logging.WARNING]
+            any_neg = _any(w, [w.lt(v, -tol) for (_a, _b, _d, V) in F2.values() for v in V.flat])
+            w.ob("second_check_uses_current_values", w.iff(len(warnings) >= 1, any_neg))
         return
     if h == "check_flows":
         exc = {"none": [], "flow0": [list(F)[0]], "proc_p1": ["p1"]}[cfg["exc"]]
